@@ -146,6 +146,17 @@ def answer (l : String) : String :=
       sep (showPairsQ (meanInputs approx (toLongNaN 0 (nanCurves g rows))))
           (showPairsQ (meanInputs approx (toLongRag 0 (ragCurves g rows))))
     | _, _, _ => "bad"
+  | ["std", g, v, m, d, sd] =>
+    -- standardize: deviations on the union grid, `n` = NaN (negative smoothed variance)
+    match parseVec? g, parseMat? v, parseMat? m, parseVec? d with
+    | some g, some V, some M, some d =>
+      let rows := mkRows V M
+      match (sd.splitOn ",").mapM (fun c => if c = "n" then some none else (parseRat? c).map some) with
+      | some sdv =>
+        sep (showLong (toLongNaN 0 ((nanCurves g rows).map (standardizeNaN d sdv))))
+            (showLong (toLongRag 0 ((ragCurves g rows).map (standardizeRag d sdv))))
+      | none => "bad"
+    | _, _, _, _ => "bad"
   | ["todense", g, v, m] =>
     match parseVec? g, parseMat? v, parseMat? m with
     | some g, some V, some M =>
